@@ -2,14 +2,16 @@
  * @file async_runtime_epoll.c
  * @brief Linux epoll-based async runtime implementation
  * 
- * Uses epoll for efficient I/O multiplexing and eventfd for worker completion notifications.
+ * Uses epoll for efficient I/O multiplexing and a pipe for worker completion notifications.
+ * (Not an eventfd: an eventfd adds up the values written to it, so two completions posted
+ * before the main thread reads them would arrive as one record with a wrong key.)
  */
 
 #if defined(__linux__)
 
 #include "async/async_runtime.h"
 #include <sys/epoll.h>
-#include <sys/eventfd.h>
+#include <fcntl.h>
 #include <sys/stat.h>
 #include <unistd.h>
 #include <stdlib.h>
@@ -20,7 +22,7 @@
 
 struct async_runtime_s {
     int epoll_fd;
-    int event_fd;  /* For worker completions */
+    int notify_pipe[2];  /* For worker completions: one 8-byte record per write */
     console_type_t console_type;  /* Detected console type */
 };
 
@@ -54,20 +56,22 @@ async_runtime_t* async_runtime_init(void) {
         return NULL;
     }
     
-    /* Create eventfd for worker notifications */
-    runtime->event_fd = eventfd(0, EFD_NONBLOCK);
-    if (runtime->event_fd < 0) {
+    /* Create the notification pipe for worker notifications. Every write is one
+     * 8-byte record (atomic, as it is shorter than PIPE_BUF), so records posted by
+     * different threads, or faster than they are read, stay separate. */
+    if (pipe2(runtime->notify_pipe, O_NONBLOCK | O_CLOEXEC) < 0) {
         close(runtime->epoll_fd);
         free(runtime);
         return NULL;
     }
     
-    /* Add eventfd to epoll */
+    /* Add the read end to epoll */
     struct epoll_event ev = {0};
     ev.events = EPOLLIN;
-    ev.data.fd = runtime->event_fd;
-    if (epoll_ctl(runtime->epoll_fd, EPOLL_CTL_ADD, runtime->event_fd, &ev) < 0) {
-        close(runtime->event_fd);
+    ev.data.ptr = runtime;  /* no user context is the runtime itself */
+    if (epoll_ctl(runtime->epoll_fd, EPOLL_CTL_ADD, runtime->notify_pipe[0], &ev) < 0) {
+        close(runtime->notify_pipe[0]);
+        close(runtime->notify_pipe[1]);
         close(runtime->epoll_fd);
         free(runtime);
         return NULL;
@@ -79,8 +83,11 @@ async_runtime_t* async_runtime_init(void) {
 void async_runtime_deinit(async_runtime_t* runtime) {
     if (!runtime) return;
     
-    if (runtime->event_fd >= 0) {
-        close(runtime->event_fd);
+    if (runtime->notify_pipe[0] >= 0) {
+        close(runtime->notify_pipe[0]);
+    }
+    if (runtime->notify_pipe[1] >= 0) {
+        close(runtime->notify_pipe[1]);
     }
     
     if (runtime->epoll_fd >= 0) {
@@ -117,10 +124,10 @@ int async_runtime_remove(async_runtime_t* runtime, socket_fd_t fd) {
 }
 
 int async_runtime_wakeup(async_runtime_t* runtime) {
-    if (!runtime || runtime->event_fd < 0) return -1;
+    if (!runtime || runtime->notify_pipe[1] < 0) return -1;
     
-    uint64_t val = 1;
-    ssize_t n = write(runtime->event_fd, &val, sizeof(val));
+    uint64_t val = 1;  /* a record of its own: completion key 0 */
+    ssize_t n = write(runtime->notify_pipe[1], &val, sizeof(val));
     return (n == sizeof(val)) ? 0 : -1;
 }
 
@@ -146,11 +153,12 @@ int async_runtime_wait(async_runtime_t* runtime, io_event_t* events,
     
     int event_count = 0;
     for (int i = 0; i < result && event_count < max_events; i++) {
-        /* Check if this is the eventfd */
-        if (epoll_events[i].data.fd == runtime->event_fd) {
-            /* Drain eventfd and decode worker completions */
+        /* Check if this is the notification pipe */
+        if (epoll_events[i].data.ptr == runtime) {
+            /* Drain the pipe and decode worker completions, one record each */
             uint64_t val;
-            while (read(runtime->event_fd, &val, sizeof(val)) == sizeof(val)) {
+            while (event_count < max_events &&
+                   read(runtime->notify_pipe[0], &val, sizeof(val)) == sizeof(val)) {
                 if (event_count < max_events) {
                     events[event_count].fd = -1;
                     events[event_count].completion_key = (uintptr_t)(val >> 32);
@@ -177,11 +185,11 @@ int async_runtime_wait(async_runtime_t* runtime, io_event_t* events,
 }
 
 int async_runtime_post_completion(async_runtime_t* runtime, uintptr_t completion_key, uintptr_t data) {
-    if (!runtime || runtime->event_fd < 0) return -1;
+    if (!runtime || runtime->notify_pipe[1] < 0) return -1;
     
-    /* Write to eventfd to wake up epoll_wait */
+    /* Write a record to the pipe to wake up epoll_wait */
     uint64_t val = (((uint64_t)completion_key) << 32) | (data & 0xFFFFFFFF);
-    ssize_t n = write(runtime->event_fd, &val, sizeof(val));
+    ssize_t n = write(runtime->notify_pipe[1], &val, sizeof(val));
     
     return (n == sizeof(val)) ? 0 : -1;
 }
@@ -199,7 +207,7 @@ int async_runtime_post_write(async_runtime_t* runtime, socket_fd_t fd, void* buf
 }
 
 int async_runtime_get_event_loop_handle(async_runtime_t* runtime) {
-    return runtime ? runtime->event_fd : -1;
+    return runtime ? runtime->notify_pipe[0] : -1;
 }
 
 int async_runtime_add_console(async_runtime_t* runtime, void* context) {
